@@ -1560,6 +1560,13 @@ func randomRun(rq RandReq) (res Result) {
 			if rq.Cache == 0 && rng.Intn(6) == 0 {
 				st.W = 0 // no WHERE
 			}
+			if rq.Cache > 0 && rng.Intn(3) == 0 {
+				// under a small cache too, now and then: an UPDATE of every row dirties more pages than the cache holds once the
+				// table has grown - the statement must be refused as a whole (cache full: abandoned and restarted below), never
+				// reported as done with part of its rows changed on pages nobody keeps
+				st.W = 0
+				res.Stats["wide-updates-under-a-small-cache"]++
+			}
 			if rq.LongBad > 0 && rng.Intn(3) == 0 {
 				// an UPDATE whose new text fits the rows with a NULL INT column and is two bytes too long for the others:
 				// when rows of the first kind come first, the refusal arrives late - still nothing may change
@@ -1651,6 +1658,9 @@ func randomRun(rq RandReq) (res Result) {
 					return fail(fmt.Sprintf("statement %q was refused with %q, but only %d of the %d pages of the cache are dirty", renderStmt(st), e.Error(), d, rq.Cache))
 				}
 				res.Stats["cachefull-stmts"]++
+				if st.A == "update" && st.W == 0 {
+					res.Stats["wide-updates-refused-by-a-full-cache"]++
+				}
 				if res.Stats["cachefull-stmts"] > rq.N/4 {
 					res.CacheFul = true
 					res.Diverged = "precondition of C16 not met: cache full of dirty pages in more than a quarter of the statements"
